@@ -2,7 +2,7 @@
     Reverse complement, subsequence and copy obey their algebraic laws. *)
 From Coq Require Import NArith ZArith List Bool.
 From OBI.C07.Gen Require Import Tables.
-From OBI.C07 Require Import Model Proofs Heap HeapProofs.
+From OBI.C07 Require Import Model Proofs Heap HeapProofs Trace Proofs2.
 Import ListNotations.
 Open Scope N_scope.
 
@@ -135,9 +135,10 @@ Proof. exact mm_commute. Qed.
     result register, aliased register) and every register reads the value predicted by the value semantics:
     modifying or recycling one object never changes another. ([run] is what the real objects are compared
     with after every history by the correspondence check.)
-    Not modelled: sync.Pool itself (the model covers every hand-out order instead; the pool events of the
-    real code are not trace-validated, the tie is the value-level correspondence of the histories plus the
-    buffer-disjointness observation of the harness); features / paired links are outside the property. *)
+    Features (third buffer, SetFeatures adopts the caller's slice and gives the old one to the pool) and the
+    mate link (PairTo / UnPair; a field, not a buffer) are part of the objects.
+    Not modelled: sync.Pool itself — the model covers every hand-out order, and the REAL hand-out order of
+    every history the check runs is validated against it (Trace.v, theorem C07_trace_accepted_is_value_run). *)
 Theorem C07_no_shared_state : forall ops,
   let '(rs, cs) := crun cst0 ops in let '(rs', st) := run st0 (map abs_op ops) in
   rs = rs' /\ forall r, cval_of cs r = val_of st r.
@@ -151,22 +152,23 @@ Proof. exact sim_run. Qed.
 
 (** the pre-repair SetQualities (pool keeps the address of the live field) breaks it *)
 Theorem C07_setqualities_orig_refuted :
-  let '(_, cs1) := cstep cst0 (CNew [97;99;103;116] [1;2;3;4] None CFresh CFresh) in
+  let '(_, cs1) := cstep cst0 (CNew [97;99;103;116] [1;2;3;4] None [] true CFresh CFresh CFresh) in
   let cs2 := csetqual_orig cs1 0 [5;6;7;8] CFresh in
-  let '(_, cs3) := cstep cs2 (CNew [103;103;103;103] [] None (CPool 0) CFresh) in
-  cval_of cs2 0 = Some (mkv [97;99;103;116] [5;6;7;8] None) /\
-  cval_of cs3 0 = Some (mkv [97;99;103;116] [103;103;103;103] None).
+  let '(_, cs3) := cstep cs2 (CNew [103;103;103;103] [] None [] true (CPool 0) CFresh CFresh) in
+  cval_of cs2 0 = Some (mkv [97;99;103;116] [5;6;7;8] None [] None) /\
+  cval_of cs3 0 = Some (mkv [97;99;103;116] [103;103;103;103] None [] None).
 Proof. exact setqualities_orig_refuted. Qed.
 
 (** non-vacuity of the ownership model: a history with recycling, a pooled hand-out, an in-place reverse
     complement and a poke, on which the derived objects keep their values *)
 Example C07_ownership_nonvacuous :
-  let ops := [CNew [97;99;103;116] [1;2;3;4] None CFresh CFresh; CCopy 0 CFresh CFresh; CRecycle 0;
-              CSub 1 1 3 false (CPool 0) (CPool 0); CRc 2 true CFresh CFresh; CPoke 1 0 116; CChurn 0 [219;219]; CJoin 1 2 false CFresh (CPool 0)] in
+  let ops := [CNew [97;99;103;116] [1;2;3;4] None [70;84] true CFresh CFresh CFresh; CCopy 0 CFresh CFresh CFresh; CRecycle 0;
+              CSub 1 1 3 false (CPool 0) (CPool 0) (CPool 0); CRc 2 true CFresh CFresh CFresh; CPoke 1 0 116; CChurn 0 [219;219];
+              CJoin 1 2 false CFresh (CPool 0) CFresh; CPair 1 2; CSetFeat 1 [88] (CPool 0); CRecycle 2] in
   let '(_, cs) := crun cst0 ops in
-  cval_of cs 0 = None /\ cval_of cs 1 = Some (mkv [116;99;103;116] [1;2;3;4] None) /\
-  cval_of cs 2 = Some (mkv [99;103] [3;2] None) /\ cval_of cs 3 = cval_of cs 2 /\
-  cval_of cs 4 = Some (mkv [116;99;103;116;99;103] [1;2;3;4] None).
+  cval_of cs 0 = None /\ cval_of cs 1 = Some (mkv [116;99;103;116] [1;2;3;4] None [88] (Some 2%nat)) /\
+  cval_of cs 2 = None /\ cval_of cs 3 = None /\
+  cval_of cs 4 = Some (mkv [116;99;103;116;99;103] [1;2;3;4;3;2] None [70;84] None).
 Proof. vm_compute. repeat split; reflexivity. Qed.
 
 (** ================= the code before the repairs violates the property (witnesses replayed by the corpus) *)
@@ -186,9 +188,9 @@ Proof. exact backlink_orig_refuted. Qed.
 
 (** non-vacuity: a value with all symbols, qualities and two mismatches meets every hypothesis above *)
 Example C07_nonvacuous :
-  let v := mkv iupac (nrange 19 0) (Some [([40;97;58;51;48;41;45;62;40;99;58;50;48;41], 5%Z); ([40;103;58;49;50;41;45;62;40;116;58;48;55;41], 19%Z)]) in
+  let v := mkv iupac (nrange 19 0) (Some [([40;97;58;51;48;41;45;62;40;99;58;50;48;41], 5%Z); ([40;103;58;49;50;41;45;62;40;116;58;48;55;41], 19%Z)]) [70;84] None in
   on_iupac (vseq v) /\ qual_ok v /\ omm_ok (vmm v) /\ In 114 iupac_letters /\
-  sub_val v 17 3 true = Ok (mkv [91;93;97;99;103] [17;18;0;1;2] (Some [([40;103;58;49;50;41;45;62;40;116;58;48;55;41], 2%Z)])).
+  sub_val v 17 3 true = Ok (mkv [91;93;97;99;103] [17;18;0;1;2] (Some [([40;103;58;49;50;41;45;62;40;116;58;48;55;41], 2%Z)]) [] None).
 Proof.
   cbn zeta. split; [|split; [|split; [|split]]].
   - unfold on_iupac. cbn [vseq]. apply (proj2 (Forall_forall _ _)). intros x Hx. exact Hx.
@@ -197,6 +199,84 @@ Proof.
   - cbn. auto 20.
   - vm_compute. reflexivity.
 Qed.
+
+(** ================= round 2 *)
+
+(** EXACT involution domain. Over IUPAC symbols of either case (upper case is reachable through Write /
+    WriteString / WriteByte only: NewBioSequence and SetSequence lower-case their input, nucComplement always
+    answers lower case) a double reverse complement LOWER-CASES: it restores s exactly when s is over the
+    lower-case alphabet acgtrymkswbdhvn.-[] of the property. *)
+Theorem C07_rc_involution_domain : forall s, on_iupac_any_case s ->
+  rc (rc s) = to_lower s /\ on_iupac (to_lower s) /\ (rc (rc s) = s <-> on_iupac s).
+Proof. exact rc_involution_domain. Qed.
+
+(** Join: reverse complement of a concatenation; the joined object keeps one score per symbol (repaired
+    code: qualities of the second sequence, or the default vector of 40s, are appended) ... *)
+Theorem C07_rc_of_join : forall s1 s2, rc (s1 ++ s2) = rc s2 ++ rc s1.
+Proof. exact rc_app. Qed.
+
+Theorem C07_join_keeps_qualities : forall v v2, qual_ok v -> qual_ok v2 -> qual_ok (join_val v v2) /\
+  vseq (join_val v v2) = vseq v ++ vseq v2 /\ (vqual v <> [] -> vqual v2 <> [] -> vqual (join_val v v2) = vqual v ++ vqual v2).
+Proof. exact join_keeps_qual_ok. Qed.
+
+(** ... the code before the repair appended the symbols only: acgt/[1;2;3;4] joined with gg/[7;8] has 6
+    symbols and 4 scores (ReverseComplement then indexes the scores out of range). *)
+Theorem C07_join_orig_refuted : exists v v2, qual_ok v /\ qual_ok v2 /\ ~ qual_ok (join_val_orig v v2) /\
+  join_val_orig v v2 = mkv [97;99;103;116;103;103] [1;2;3;4] None [] None.
+Proof. exact join_orig_refuted. Qed.
+
+(** Paired links: Copy, Subsequence, fresh ReverseComplement and fresh Join leave every existing register as
+    it was (mate links included) and the object they return has NO mate: derived objects share no link. *)
+Theorem C07_derived_objects_share_no_mate : forall st o, wf_state st -> derives o = true ->
+  (forall r, (r < length (regs st))%nat -> val_of (snd (step st o)) r = val_of st r) /\
+  (forall v, fst (fst (fst (step st o))) = SOk -> val_of (snd (step st o)) (length (regs st)) = Some v -> vmate v = None).
+Proof. exact derived_objects. Qed.
+
+(** ... and the hypothesis [wf_state] holds in every state a history reaches. *)
+Theorem C07_reachable_states_wf : forall ops, wf_state (snd (run st0 ops)).
+Proof. intros ops. apply wf_run. exact wf_st0. Qed.
+
+(** What the code does when a paired object is recycled (recorded, outside the statement: mates are neither
+    copies nor subsequences nor reverse complements of each other): the survivor keeps a stale link. *)
+Theorem C07_recycled_mate_is_stale :
+  let ops := [ONew [97;99] [] None [] true; ONew [103;103] [] None [] true; OPair 0 1; OCopy 0; ORecycle 0] in
+  let '(_, st) := run st0 ops in
+  snapshot st = [None; Some (mkv [103;103] [] None [] (Some 0%nat), (-2)%Z); Some (mkv [97;99] [] None [] None, (-1)%Z)] /\
+  snapshot (snd (step st (OUnpair 1))) = [None; Some (mkv [103;103] [] None [] None, (-1)%Z); Some (mkv [97;99] [] None [] None, (-1)%Z)].
+Proof. exact recycled_mate_is_stale. Qed.
+
+(** REAL POOL TRACES. A history whose real Get / Recycle events and buffer identities are accepted by the
+    validator Trace.trun (run by vm_compute on every history of every check) is a run [crun] of the
+    ownership model with the hand-out choices the real pool made, over the same operations; by
+    C07_no_shared_state that run answers and reads what the value semantics answers and reads. *)
+Theorem C07_trace_accepted_is_value_run : forall c, tcase_ok c = true ->
+  exists cops, map abs_op cops = tops c /\
+    let '(rs, cs) := crun cst0 cops in let '(rs', st) := run st0 (tops c) in
+    rs = rs' /\ (forall r, cval_of cs r = val_of st r) /\
+    list_eqb stepobs_eqb rs (map tres_obs (tsteps c)) = true /\ list_eqb ovalue_eqb (csnapshot cs) (tfinal c) = true.
+Proof. exact trace_accepted_is_value_run. Qed.
+
+(** non-vacuity of the validator: a real-looking trace with a reuse (buffer 0 recycled, handed out again) is
+    accepted, the same trace where the pool hands out the buffer of a LIVE object is rejected (code 2) *)
+Example C07_trace_nonvacuous :
+  let ops := [ONew [97;99] [] None [] true; ORecycle 0; ONew [103] [] None [] true] in
+  tcase_res (mktc ops [mkts [EvG 0 300] [(0, -1, -1)%Z] (SOk, 0%Z, (-1)%Z) 0%nat; mkts [EvR 0 300] [(-1, -1, -1)%Z] (SOk, (-1)%Z, (-1)%Z) 0%nat;
+                       mkts [EvG 0 300] [(-1, -1, -1)%Z; (0, -1, -1)%Z] (SOk, 1%Z, (-1)%Z) 0%nat]
+                  [None; Some (mkv [103] [] None [] None, (-1)%Z)]) = inl (0%nat, 1%nat) /\
+  tcase_res (mktc [ONew [97;99] [] None [] true; ONew [103] [] None [] true]
+                  [mkts [EvG 0 300] [(0, -1, -1)%Z] (SOk, 0%Z, (-1)%Z) 0%nat; mkts [EvG 0 300] [(0, -1, -1)%Z; (0, -1, -1)%Z] (SOk, 1%Z, (-1)%Z) 0%nat]
+                  [Some (mkv [103] [] None [] None, (-1)%Z); Some (mkv [103] [] None [] None, (-1)%Z)]) = inr (1%nat, E_NOT_FREE).
+Proof. vm_compute. split; reflexivity. Qed.
+
+(** the pre-pool-fix SetFeatures (pool keeps the address of the live field) breaks the features of a live object *)
+Theorem C07_setfeatures_orig_refuted :
+  let '(_, cs1) := cstep cst0 (CNew [97;99;103;116] [] None [70;84] true CFresh CFresh CFresh) in
+  let cs2 := csetfeat_orig cs1 0 [88;89] CFresh in
+  let '(_, cs3) := cstep cs2 (CNew [103;103] [] None [] true (CPool 0) CFresh CFresh) in
+  cval_of cs2 0 = Some (mkv [97;99;103;116] [] None [88;89] None) /\
+  cval_of cs3 0 = Some (mkv [97;99;103;116] [] None [103;103] None).
+Proof. exact setfeatures_orig_refuted. Qed.
+
 
 Print Assumptions C07_comp_model_is_code.
 Print Assumptions C07_comp_is_iupac_complement.
@@ -222,3 +302,12 @@ Print Assumptions C07_ownership_invariant.
 Print Assumptions C07_setqualities_orig_refuted.
 Print Assumptions C07_subseq_mutation_orig_refuted.
 Print Assumptions C07_backlink_orig_refuted.
+Print Assumptions C07_rc_involution_domain.
+Print Assumptions C07_rc_of_join.
+Print Assumptions C07_join_keeps_qualities.
+Print Assumptions C07_join_orig_refuted.
+Print Assumptions C07_derived_objects_share_no_mate.
+Print Assumptions C07_recycled_mate_is_stale.
+Print Assumptions C07_trace_accepted_is_value_run.
+Print Assumptions C07_setfeatures_orig_refuted.
+Print Assumptions C07_reachable_states_wf.
